@@ -315,9 +315,7 @@ func (p *Prog) Lisp(job int, after func(rid int) string) (setup []string, runs [
 	return
 }
 
-// HasExit reports whether the program contains a return-from / go.  Such a program is rendered without
-// (vyield) / (vpause) forms: slip's forms pass an exit marker on only when it is the value of their LAST form,
-// so an inserted form after it would change the meaning.
+// HasExit reports whether the program contains a return-from / go.
 func HasExit(ops []Op) bool {
 	for _, o := range ops {
 		if o.Kind == "exit" || HasExit(o.Body) {
